@@ -7,8 +7,10 @@
 //! usage: mv-harness <property> --seed N --cases N --out DIR [--thorough] [--replay FILE]
 
 mod c02;
+mod c06;
 mod c07;
 mod c08;
+mod c09;
 mod c13;
 mod c17;
 mod c20;
@@ -68,11 +70,13 @@ fn main() {
     let mut out = Out::new(&cfg.out);
     match prop.as_str() {
         "C02" => c02::run(&cfg, &mut out),
+        "C06" => c06::run(&cfg, &mut out),
         "C07" => c07::run(&cfg, &mut out),
         "C08" => {
             c08::run(&cfg, &mut out);
             c08::run_sessions(&cfg, &mut out);
         }
+        "C09" => c09::run(&cfg, &mut out),
         "C13" => c13::run(&cfg, &mut out),
         "C17" => c17::run(&cfg, &mut out),
         "C20" => c20::run(&cfg, &mut out),
